@@ -35,8 +35,13 @@ def render(c, cid):
         vis = vis % cid
     # 9 variants of a u8: above the `num_values * size <= 8` threshold, so auto picks next_and_back on holes
     body = "A = 0, B = 1, C = 2, D = 3, E1 = 4, F = 5, G = 6, H = 7, I = 8" if c["gapless"] else "A = 0, B = 5, C = 6, D = 9, E1 = 10, F = 20, G = 21, H = 22, I = 40"
+    repr = "u8"
+    if c.get("shape") == "runs":
+        repr, body = "i16", ", ".join(f"R{j} = {-300 + 53 * j}" for j in range(12))
+    elif c.get("shape") == "big":
+        repr, body = "i8", ", ".join(f"G{j} = {-35 + j}" for j in range(70))
     return (["pub mod a { pub mod m {", "use ::enum_tools::EnumTools;", "#[derive(Clone, Copy, EnumTools)]"]
-            + render_verdict.cfg_attr_lines(c["cfg"]) + ["#[repr(u8)]", f"{vis}enum E {{ {body} }}", "}}"])
+            + render_verdict.cfg_attr_lines(c["cfg"]) + [f"#[repr({repr})]", f"{vis}enum E {{ {body} }}", "}}"])
 
 
 def norm_vis(v, modpath):
